@@ -77,15 +77,19 @@ def output_important(node: CSSProperty, out: OutputStream, separator=False):
 
 def output_value(value: CSSValue, out: OutputStream, config: Config):
     prev_end = -1
+    prev_field = False
     for i, token in enumerate(value.value):
-        # Handle edge case: a field is written close to previous token like this: `foo${bar}`.
-        # We should not add delimiter here
+        # Handle edge case: a field is written close to previous token like this: `foo${bar}`,
+        # or a token is written close to a field: `${bar}foo`. We should not add delimiter here
+        is_field = isinstance(token, tokens.Field)
+        adjacent = getattr(token, 'start', None) is not None and token.start == prev_end
 
-        if i != 0 and (not isinstance(token, tokens.Field) or token.start is None or token.start != prev_end):
+        if i != 0 and not (adjacent and (is_field or prev_field)):
             out.push(' ')
 
         output_token(token, out, config)
         prev_end = token.end if hasattr(token, 'end') else -1
+        prev_field = is_field
 
 def output_token(token, out: OutputStream, config: Config):
     if isinstance(token, tokens.ColorValue):
